@@ -192,6 +192,15 @@ def uniformity(rep, svh, rng, gates, names, count, N):
 
 def deterministic_paths(rep, svh, rng, gates, count, quick):
     shot_choices = [1, 63, 64, 65, 255, 256, 257, 1000, 1025] if not quick else [1, 64, 65, 257, 1025]
+    # the compressed reference sample (loop folding) of loops with a transient and feedback looking back into folded iterations
+    from checks import c06
+    for _ in range(60 if quick else 1500):
+        text = stimtext.circuit_text(c06.transient_case(rng))
+        ref = svh.request('refsample', [rng.choice([64, 128, 256])], text)
+        rep.count(('c02-tree', text), nontrivial=True)
+        if ref[0][4:] != ref[1][5:]:
+            rep.violation('ReferenceSampleTree::from_circuit_reference_sample', 'wrong-result', text,
+                          'decompressed compressed reference sample differs from the directly simulated one', ref[0][4:], ref[1][5:])
     for k in range(count):
         nm = rng.choice([1, 7, 63, 200, 256, 257, 300, 600, 1030])
         text, n = det_circuit(rng, gates, nm)
